@@ -284,6 +284,43 @@ func checkC03(c *hx.Checker) {
 			}
 		}
 	}
+	// comparisons of an int64 with a uint64 operand beyond 2^53 (no ONNX type; refused on the pinned tree): refused, or
+	// decided on the integers held
+	for _, op := range []string{"Less", "Greater", "Equal", "LessOrEqual", "GreaterOrEqual"} {
+		for _, i64First := range []bool{true, false} {
+			xs := []int64{1<<53 + 1, 1 << 53, 1<<62 + 1, -1, 0, math.MaxInt64}
+			ys := []uint64{1 << 53, 1<<53 + 1, 1 << 62, 1<<64 - 1, 0, 1 << 63}
+			a := ref.FromI(ref.I64, []int{len(xs)}, xs...)
+			b := ref.New(ref.U64, len(ys))
+			copy(b.V, ys)
+			exp := ref.New(ref.Bool, len(xs))
+			for i := range xs {
+				// compare as mathematical integers
+				cmp := 0
+				switch {
+				case xs[i] < 0:
+					cmp = -1
+				case uint64(xs[i]) < ys[i]:
+					cmp = -1
+				case uint64(xs[i]) > ys[i]:
+					cmp = 1
+				}
+				if !i64First {
+					cmp = -cmp
+				}
+				v := map[string]bool{"Less": cmp < 0, "Greater": cmp > 0, "Equal": cmp == 0, "LessOrEqual": cmp <= 0, "GreaterOrEqual": cmp >= 0}[op]
+				if v {
+					exp.V[i] = 1
+				}
+			}
+			ins := tjs(a, b)
+			if !i64First {
+				ins = tjs(b, a)
+			}
+			oc := &hx.OpCase{Op: op, Inputs: ins, NOut: 1, Route: "op"}
+			jobs = append(jobs, opJob{id: fmt.Sprintf("%s/mixed-int64-uint64/i64first=%v", op, i64First), tags: []string{"op=" + op, "mixed-integer-types", "domain=" + string(hx.DRefuse)}, nt: true, oc: oc, dom: hx.DRefuse, exp: []*ref.T{exp}, cmp: hx.Bits})
+		}
+	}
 	// comparisons of a float32 with a float64 operand (no ONNX type, refused on the pinned tree): refused, or decided on
 	// the VALUES the operands hold - 0.1f is larger than 0.1, 16777216f is larger than 16777215.5
 	for _, op := range []string{"Greater", "Less", "GreaterOrEqual", "LessOrEqual", "Equal"} {
